@@ -25,7 +25,8 @@ RULE = (
     "precondition, another callable, a method of the same object); thorough adds sequences of 2..3 faulted calls before the "
     "probes. Monitors: (state) content of the library's in-progress set after the faulted call equals its content before; "
     "(behaviour) every follow-up call produces exactly the model's fresh-process trace and verdict; (surfacing) the caller gets "
-    "the injected exception itself or a wrapper chaining it via __cause__; a repr fault of kind Exception may be absorbed by the "
+    "the injected exception itself or a wrapper chaining it via __cause__; (growth) after 3000 finished calls in one context (and in one "
+    "re-used context copy) the in-progress variable holds no more than 1000 entries - leftovers of finished calls must not accumulate; a repr fault of kind Exception may be absorbed by the "
     "repr machinery if the contract's own violation error is raised. Non-trivial = faulted run (each is a distinct (program, "
     "scenario, point, kind)); exhaustive over the points of the generated programs."
 )
@@ -50,6 +51,8 @@ class Plan:
         self.injected = None  # type: Optional[BaseException]
         self.injected_at = None  # type: Optional[str]
         self.active = False
+        # a copy of the context taken at the latest control-transfer point of a faulted run, i.e. while the call was in flight
+        self.copied_context = None  # type: Any
 
     def arm(self, target: Optional[int], kind: Optional[str]) -> None:
         self.target = target
@@ -59,6 +62,7 @@ class Plan:
         self.injected = None
         self.injected_at = None
         self.active = True
+        self.copied_context = None
 
     def disarm(self) -> None:
         self.active = False
@@ -75,6 +79,9 @@ class Plan:
         idx = self.n
         self.n += 1
         self.points.append(label)
+        if self.target is not None:
+            import contextvars  # pylint: disable=import-outside-toplevel
+            self.copied_context = contextvars.copy_context()
         if self.target is not None and idx == self.target and self.injected is None and not label.startswith("await:"):
             self.injected = self.make_exc()
             self.injected_at = label
@@ -217,7 +224,10 @@ def in_progress_snapshot() -> Optional[frozenset]:
     if var is None or __import__("os").environ.get("VERIF_C11_NO_STATE") == "1":
         return None
     val = var.get()
-    return frozenset(val) if val else frozenset()
+    if not val:
+        return frozenset()
+    # (the marks are objects with a flow, a target and a liveness flag; older versions of the library kept plain ids)
+    return frozenset((getattr(m, "flow", None), getattr(m, "target", m)) for m in val if getattr(m, "active", True))
 
 
 def chained(exc: Optional[BaseException], injected: BaseException) -> bool:
@@ -353,12 +363,218 @@ def run_faulted(w, loaded, model, contracts, plan: Plan, spec, full, instance, i
                 kind, label, tag, {k: v for k, v in fu.items() if k != "truth"}, d.what), case,
                 {"expected": repr(exp), "observed": fobs.describe()})
             break
+    # ... also when they are made through a copy of the context that was taken while the faulted call was in flight (the same
+    # thread, no task: the same flow of control as the faulted call)
+    copied = plan.copied_context
+    if copied is not None:
+        for fu in followups(model, full, w.rng):
+            inst = instance if fu["target"] == "member" else None
+            exp = runner.expected_for(model, fu)
+            fobs = copied.run(runner.perform, loaded, model, fu, inst)
+            w.count("followup_calls")
+            w.count("followup_calls_through_copied_context")
+            discs = runner.compare(loaded, model, contracts, fu, exp, fobs, check_identity=False)
+            for d in discs:
+                w.violation("C11/checking-not-rearmed-in-context-copied-during-the-call", "after {} injected at {} in {}: follow-up {} made through a "
+                            "copy of the context taken during the faulted call: {}".format(
+                                kind, label, tag, {k: v for k, v in fu.items() if k != "truth"}, d.what), case,
+                            {"expected": repr(exp), "observed": fobs.describe()})
+                break
     if w.counters.get("faulted_runs", 0) % 1501 == 1 and obs is not None:
         w.sample({"call": {k: v for k, v in full.items() if k != "body"}, "scenario": tag, "point": label, "kind": kind,
                   "outcome": obs.describe()["outcome"]})
 
 
+OUT_OF_ORDER_SOURCE = '''
+import gc
+import icontract
+
+
+@icontract.invariant(lambda self: HUB.inv("inv:" + self.name, self) and self.x >= 0)
+class A:
+    def __init__(self, name):
+        self.name = name
+        self.x = 0
+
+    async def wait(self, tick):
+        await tick
+        return "waited"
+
+    def helper(self):
+        HUB.body("helper:" + self.name, {"self": self})
+        return self.x
+
+    def outer(self, end_other_call):
+        """Breaks the invariant temporarily; ends an unrelated suspended call of another object in the middle."""
+        self.x = -1
+        try:
+            self.helper()
+            end_other_call()
+            return self.helper()
+        finally:
+            self.x = 0
+'''
+
+
+def run_out_of_order_end(w) -> None:
+    """A suspended async call (driven by hand, no task) is closed / finalised / cancelled while ANOTHER check is in progress:
+    the state of the check in progress must be what it was before that (its own re-entrant calls stay unchecked, no spurious error)."""
+    import gc  # pylint: disable=import-outside-toplevel
+
+    loaded = prog.load_source(OUT_OF_ORDER_SOURCE, w.scratch())
+    mod, hub = loaded.module, loaded.hub
+    try:
+        for how in ("close", "throw-CancelledError", "garbage-collection", "run-to-completion"):
+            a1, a2 = mod.A("a1"), mod.A("a2")
+            box = {"coro": a1.wait(probe.Tick("t"))}
+            box["coro"].send(None)  # suspended in the body of a1.wait; same context (no task)
+
+            def end_other_call():
+                coro = box.pop("coro")
+                if how == "close":
+                    coro.close()
+                elif how == "throw-CancelledError":
+                    try:
+                        coro.throw(asyncio.CancelledError("cancelled"))
+                    except asyncio.CancelledError:
+                        pass
+                elif how == "run-to-completion":
+                    try:
+                        coro.send(None)
+                    except StopIteration:
+                        pass
+                else:
+                    del coro
+                    gc.collect()
+
+            hub.reset()
+            w.count("followup_calls")
+            w.count("out_of_order_endings")
+            w.case(("out-of-order-end", how))
+            try:
+                res = a2.outer(end_other_call)
+                outcome = "returned {!r}".format(res)
+            except BaseException as err:  # pylint: disable=broad-except
+                outcome = "raise {}: {}".format(type(err).__name__, str(err)[:100])
+            evs = [(e.kind, e.id) for e in hub.events]
+            # a2's invariant is evaluated before and after outer; the two helper() calls in between are re-entrant
+            if outcome != "returned -1":
+                w.violation("C11/check-in-progress-disturbed-by-the-end-of-another-call", "a suspended call on another object was ended by {} "
+                            "inside a method whose invariant is temporarily broken: the method gave {} (events {}); its own re-entrant call "
+                            "must stay unchecked as before".format(how, outcome, evs), {"out_of_order": how})
+            # afterwards both objects are checked as in a fresh process
+            for obj in (a1, a2):
+                hub.reset()
+                obj.helper()
+                invs = [e.id for e in hub.events if e.kind == "inv"]
+                w.count("followup_calls")
+                if invs != ["inv:" + obj.name] * 2:
+                    w.violation("C11/checking-not-rearmed-after-fault", "after the other call was ended by {}: {}.helper() evaluated the invariants {}".format(
+                        how, obj.name, invs), {"out_of_order": how})
+    finally:
+        loaded.unload()
+
+
+GROWTH_SOURCE = '''
+import icontract
+
+
+class Boom(BaseException):
+    pass
+
+
+@icontract.require(lambda x: x >= 0)
+@icontract.ensure(lambda result: result >= 0)
+def f(x, fail=False):
+    if fail:
+        raise Boom()
+    return x
+
+
+@icontract.invariant(lambda self: self.x >= 0)
+class A:
+    def __init__(self):
+        self.x = 0
+
+    @icontract.require(lambda y: y >= 0)
+    def m(self, y, fail=False):
+        if fail:
+            raise Boom()
+        return self.x + y
+'''
+
+GROWTH_CALLS = 3000
+GROWTH_BOUND = 1000
+
+
+def raw_size() -> Optional[int]:
+    import icontract._checkers as chk  # pylint: disable=import-outside-toplevel
+
+    var = getattr(chk, "_IN_PROGRESS", None)
+    if var is None or __import__("os").environ.get("VERIF_C11_NO_STATE") == "1":
+        return None
+    val = var.get()
+    try:
+        return len(val) if val else 0
+    except TypeError:
+        return None
+
+
+def run_growth(w) -> None:
+    """A long sequence of finished calls (returned / violated / body raised a BaseException) in ONE context: whatever the library keeps in
+    its in-progress variable between calls must not grow with the number of finished calls. The bound is deliberately generous (an
+    implementation may clear its leftovers lazily or in batches); only growth proportional to the number of calls is reported."""
+    import contextvars  # pylint: disable=import-outside-toplevel
+
+    loaded = prog.load_source(GROWTH_SOURCE, w.scratch())
+    mod = loaded.module
+    try:
+        for where in ("same-context", "copied-context-reused"):
+            ctx = contextvars.copy_context()
+            series = []
+
+            def burst(start: int) -> None:
+                a = mod.A()
+                for i in range(start, start + 500):
+                    try:
+                        if i % 3 == 0:
+                            mod.f(i % 7, fail=(i % 5 == 0))
+                        elif i % 3 == 1:
+                            a.m(i % 7, fail=(i % 5 == 1))
+                        else:
+                            mod.f(-1)
+                    except BaseException:  # pylint: disable=broad-except
+                        pass
+                series.append(raw_size())
+
+            for start in range(0, GROWTH_CALLS, 500):
+                if where == "same-context":
+                    burst(start)
+                else:
+                    ctx.run(burst, start)
+            w.count("followup_calls", GROWTH_CALLS)
+            w.count("growth_calls", GROWTH_CALLS)
+            w.case(("growth", where))
+            w.distinct("leftover_sizes_between_calls", (where, tuple(series)))
+            sizes = [x for x in series if x is not None]
+            if sizes:
+                w.count("state_checks", len(sizes))
+                if sizes[-1] > GROWTH_BOUND:
+                    w.violation("C11/leftovers-of-finished-calls-accumulate-without-bound", "after {} finished calls in one context ({}) the "
+                                "in-progress variable holds {} entries (sizes after every 500 calls: {}); the state after a call must be "
+                                "what it was before it".format(GROWTH_CALLS, where, sizes[-1], sizes), {"growth": where})
+    finally:
+        loaded.unload()
+
+
 def run(w) -> None:
+    if w.shard == 0:
+        run_out_of_order_end(w)
+    # (cheap, and on every shard: an implementation that accumulates leftovers slows every later call down, so that the fault
+    # enumeration below would only hit the wall-clock watchdog - inconclusive - instead of reporting what is wrong)
+    run_growth(w)
+    if any(v["key"].startswith("C11/leftovers-of-finished-calls") for v in w.violations):
+        return
     n = 480 if w.tier == "thorough" else 40
     for i in range(n):
         if i % w.nshards != w.shard:
@@ -373,6 +589,12 @@ def run(w) -> None:
 
 
 def replay(case, w) -> None:
+    if "out_of_order" in case:
+        run_out_of_order_end(w)
+        return
+    if "growth" in case:
+        run_growth(w)
+        return
     spec = case["prog"]
     model = Model(spec)
     contracts = runner.index_contracts(spec)
